@@ -149,24 +149,6 @@ var c03Seed = []struct {
 	{"a/b/g", "deep", false}, {"c", "", true}, {"c/h", "other", false}, {"a/b/e", "", true}, {"top", "x", false},
 }
 
-func populate(fs filesystem.Filespace, variant int) {
-	for _, s := range c03Seed {
-		if s.dir {
-			fs.MkdirAll(s.p, 0o777)
-		} else {
-			d := s.data
-			if variant > 0 && !strings.HasPrefix(s.p, "a/b") { // variant trees agree only below a/b
-				d = fmt.Sprintf("%s-variant%d", s.data, variant)
-			}
-			fs.WriteFile(s.p, []byte(d), 0o644)
-		}
-	}
-	if variant > 0 {
-		fs.WriteFile("extra-outside", []byte("only in the variant"), 0o644)
-		fs.MkdirAll("c/more", 0o777)
-	}
-}
-
 // segment strings: exhaustive path arguments built from {name, ".", "..", ""} segments
 func segPaths(maxSeg int, names []string) []string {
 	segs := append([]string{".", "..", ""}, names...)
@@ -269,7 +251,7 @@ func runC03(o *Out, rng *RNG, tier string, replay string) {
 	o.CaseType = "case"
 	o.CheckFn = "check"
 	o.ShardSize = 150
-	o.Rule = "view stacks of depth 1-3 over a populated backend (kinds: memfs child view, fshelper.SubFS, read-only mask, encrypted, cache-backed, disk child) x path arguments built from {name,'.','..',''} segments (exhaustive up to the tier's segment bound, with and without leading '/') x the 16 operations (both arguments of the copies). L2: backend tree outside the view root unchanged (only ancestors of the root may appear as directories), answers independent of what lies outside the root (two parents agreeing below the root), nothing created on the host above a disk root. L1 (memfs-rooted stacks without cache): result + root tree vs the Coq chain model; L1 resolve probe (all memfs-rooted stacks, caches included): the one backend file a successful WriteFile changes is where the model's path transformer resolves the argument to; L1 cache child views (NewMemCache on the root, then Filespace(..) one or more times): the operation's result and the root tree after Commit vs the model's sub_cache_step on the cache state. Non-trivial: the operation was not rejected; distinct by (stack, op, arguments)."
+	o.Rule = "view stacks of depth 1-3 over a populated backend (kinds: memfs child view, fshelper.SubFS, read-only mask, encrypted, cache-backed, disk child) x path arguments built from {name,'.','..',''} segments (exhaustive up to the tier's segment bound, with and without leading '/') x the 16 operations (both arguments of the copies; the other argument is an existing file and, for Copy / CopyDirectory, an existing directory of the view). L2: backend tree outside the view root unchanged (only ancestors of the root may appear as directories); answers independent of what lies outside the root, for EVERY stack: the same operation on a twin parent that agrees at and below the root and has other names and contents elsewhere (memfs and disk); the view handed out by a successful Filespace(p) is used (listed, written, removed through) and judged by both oracles against the root of the view it came from; look-alike sweep: siblings whose names extend the root's name (a/ab, a/b/a/b2, host root/root2) and the climbing arguments and Filespace arguments that name them; histories: one view across operations of its parent (copies across the view's boundary in both directions, removal and re-creation of the root), every operation of the view judged; nothing created, changed or deleted on the host above a disk root. L1 (memfs-rooted stacks without cache): result + root tree vs the Coq chain model; L1 resolve probe (all memfs-rooted stacks, caches included): the one backend file a successful WriteFile changes is where the model's path transformer resolves the argument to; L1 cache child views (NewMemCache on the root, then Filespace(..) one or more times): the operation's result and the root tree after Commit vs the model's sub_cache_step on the cache state. Non-trivial: the operation was not rejected; distinct by (stack, op, arguments)."
 	maxSeg := 3
 	if tier == "thorough" {
 		maxSeg = 4
@@ -296,8 +278,33 @@ func runC03(o *Out, rng *RNG, tier string, replay string) {
 	total := 0
 	// budget: exhaustive paths x stacks x single-argument ops is large; sample the op per (stack,path) and
 	// run ALL ops for the climbing-prone paths (those containing "..").
-	runOne := func(ks []Ctor, op FsOp, emitL1 bool) {
+	type treeSlot struct {
+		root filesystem.Filespace
+		walk []WalkEnt
+	}
+	trees := map[bool]*treeSlot{}
+	twins := map[string]filesystem.Filespace{}
+	takeTree := func(look bool) (filesystem.Filespace, []WalkEnt, int) {
+		if s := trees[look]; s != nil {
+			delete(trees, look)
+			o.Stat("backend_tree_reused")
+			return s.root, s.walk, 0
+		}
+		root, _ := memfs.NewFilespace()
+		refused := populateEnts(root, c03SeedEnts(look))
+		before, _, _ := walkFs(root)
+		return root, before, refused
+	}
+	giveTree := func(look bool, root filesystem.Filespace, walk []WalkEnt) {
+		trees[look] = &treeSlot{root, walk}
+	}
+	// look: the backend also holds the look-alike siblings of the view roots (c03Look); such runs are
+	// judged by the oracles only (no Coq case)
+	runOne := func(ks []Ctor, op FsOp, emitL1 bool, look bool) {
 		total++
+		if look {
+			emitL1 = false
+		}
 		hasCache, hasEnc := false, false
 		for _, k := range ks {
 			if k.Kind == "cache" {
@@ -307,9 +314,8 @@ func runC03(o *Out, rng *RNG, tier string, replay string) {
 				hasEnc = true
 			}
 		}
-		root, _ := memfs.NewFilespace()
-		populate(root, 0)
-		before, _, _ := walkFs(root)
+		ents := c03SeedEnts(look)
+		root, before, refused := takeTree(look)
 		view, caches, ok := buildView(root, ks)
 		vroot, hasRoot := viewRoot(ks)
 		var out FsOut
@@ -317,15 +323,22 @@ func runC03(o *Out, rng *RNG, tier string, replay string) {
 			out = FsOut{Kind: "err", Msg: "view creation failed"}
 		} else {
 			out = withTimeout(20*1e9, func() FsOut { return execOn(view, op) })
-			for i := len(caches) - 1; i >= 0; i-- {
-				caches[i].Commit()
-			}
+			commitAll(caches)
 		}
 		after, wok, why := walkFs(root)
 		o.Stat("op_" + op.Kind)
 		o.Stat("out_" + out.Kind)
 		desc := map[string]interface{}{"stack": ks, "op": op, "out": out.Kind}
+		if look {
+			desc["look"] = true
+		}
 		keyStr := fmt.Sprintf("%v|%s|%s|%s", ks, op.Kind, op.P, op.Q)
+		if look {
+			keyStr = "look|" + keyStr
+		}
+		if refused > 0 || len(before) != len(ents) {
+			o.Fail("setup", fmt.Sprintf("the memory backend refused %d of the %d nodes of the start tree (%d present)", refused, len(ents), len(before)), "setup", desc)
+		}
 		if out.Kind == "panic" || out.Kind == "hang" {
 			o.Fail("no_panic", "operation "+out.Kind+": "+out.Msg, "panic", desc)
 		}
@@ -334,18 +347,65 @@ func runC03(o *Out, rng *RNG, tier string, replay string) {
 		} else if msg := outsideUnchanged(before, after, vroot, hasRoot && ok); msg != "" {
 			o.Fail("confined_writes", msg, "confine:"+op.Kind, desc)
 		}
-		// non-interference: the same operation on a parent that differs only OUTSIDE the view root
-		if ok && hasRoot && isPrefixComps([]string{"a", "b"}, vroot) && !hasEnc {
-			root2, _ := memfs.NewFilespace()
-			populate(root2, 1)
-			view2, caches2, ok2 := buildView(root2, ks)
+		// non-interference: the same operation on a twin parent that agrees with this one at and below
+		// the view root and has other names and other contents everywhere else (for a stack without a
+		// root: everywhere)
+		var view2 filesystem.Filespace
+		if ok {
+			twinKey := fmt.Sprintf("%v|%v|%q", look, hasRoot, vroot)
+			root2 := twins[twinKey]
+			if root2 == nil {
+				root2, _ = memfs.NewFilespace()
+				populateEnts(root2, twinEnts(ents, vroot, hasRoot))
+			}
+			if isMutating(op.Kind) || op.Kind == "Filespace" { // a twin is used again only after operations that change nothing
+				delete(twins, twinKey)
+			} else {
+				twins[twinKey] = root2
+			}
+			v2, _, ok2 := buildView(root2, ks)
 			if ok2 {
+				view2 = v2
 				out2 := withTimeout(20*1e9, func() FsOut { return execOn(view2, op) })
-				_ = caches2
 				if outSig(out) != outSig(out2) {
-					o.Fail("confined_reads", fmt.Sprintf("answer depends on what lies outside the view root %q: %s vs %s", vroot, outSig(out), outSig(out2)), "noninterf:"+op.Kind, desc)
+					o.Fail("confined_reads", fmt.Sprintf("answer depends on what lies outside the view root %q (has root: %v): %s vs %s", vroot, hasRoot, outSig(out), outSig(out2)), "noninterf:"+op.Kind, desc)
 				}
 				o.Stat("noninterference_checked")
+			} else {
+				o.Fail("confined_reads", fmt.Sprintf("the view can be built on one parent and not on its twin (they agree at and below the root %q)", vroot), "noninterf:build", desc)
+			}
+		}
+		// the view handed out by a successful Filespace(p) is used: what it shows must not depend on
+		// the outside of the root of the view that handed it out, what it does must stay under it
+		probed := false
+		if ok && wok && op.Kind == "Filespace" && out.Kind == "unit" {
+			if child := getChild(view, op.P); child != nil {
+				probed = true
+				o.Stat("child_view_probed")
+				if view2 != nil {
+					if child2 := getChild(view2, op.P); child2 != nil {
+						if s1, s2 := childReadSig(child), childReadSig(child2); s1 != s2 {
+							o.Fail("confined_reads", fmt.Sprintf("the view returned by Filespace(%q) shows what lies outside the root %q of the view it came from: %s vs %s", op.P, vroot, s1, s2), "child-reads", desc)
+						}
+					}
+				}
+				if w := childWrites(child); w.Kind != "unit" {
+					o.Fail("no_panic", "use of the view returned by Filespace: "+w.Kind+": "+w.Msg, "panic", desc)
+				}
+				commitAll(caches)
+				after2, wok2, why2 := walkFs(root)
+				if !wok2 {
+					o.Fail("walk", "backend walk failed after the use of the view returned by Filespace: "+why2, "walk", desc)
+				} else if msg := outsideUnchanged(after, after2, vroot, hasRoot); msg != "" {
+					o.Fail("confined_writes", fmt.Sprintf("through the view returned by Filespace(%q): %s", op.P, msg), "confine:child", desc)
+				}
+			}
+		}
+		// a backend tree that is byte-identical after the run serves the next run (building one costs
+		// more than the run: every missing node on the way is an error value with a stack trace)
+		if wok && !probed && refused == 0 && out.Kind != "panic" && out.Kind != "hang" {
+			if same, _ := walkEqual(before, after); same && len(before) == len(after) {
+				giveTree(look, root, after)
 			}
 		}
 		nontrivial := out.Kind != "err" && !(out.Kind == "bool" && !out.B)
@@ -406,7 +466,49 @@ func runC03(o *Out, rng *RNG, tier string, replay string) {
 		op.fillJSON()
 		return op
 	}
-	// disk: child view of a disk filespace with a canary tree above the filespace root on the host
+	// histories: ONE view that lives across operations of its parent; every operation of the view is
+	// judged by the confinement oracle (backend walk before / after), operations of the parent are not
+	runHistory := func(ks []Ctor, steps []histStep, tag string) {
+		total++
+		ents := c03SeedEnts(true)
+		root, _ := memfs.NewFilespace()
+		populateEnts(root, ents)
+		view, caches, ok := buildView(root, ks)
+		vroot, hasRoot := viewRoot(ks)
+		if !ok {
+			return
+		}
+		o.Stat("history_" + tag)
+		for i, st := range steps {
+			if st.On == "parent" {
+				withTimeout(20*1e9, func() FsOut { return execOn(root, st.Op) })
+				continue
+			}
+			before, bok, _ := walkFs(root)
+			out := withTimeout(20*1e9, func() FsOut { return execOn(view, st.Op) })
+			commitAll(caches)
+			after, wok, why := walkFs(root)
+			o.Stat("history_view_op")
+			desc := map[string]interface{}{"stack": ks, "history": steps[:i+1], "op": st.Op, "out": out.Kind}
+			if out.Kind == "panic" || out.Kind == "hang" {
+				o.Fail("no_panic", "operation "+out.Kind+" in a history: "+out.Msg, "panic", desc)
+				return
+			}
+			if !wok || !bok {
+				o.Fail("walk", "backend walk failed in a history: "+why, "walk", desc)
+				return
+			}
+			if msg := outsideUnchanged(before, after, vroot, hasRoot); msg != "" {
+				o.Fail("confined_writes", fmt.Sprintf("step %d of a history (the view outlives operations of its parent): %s", i, msg), "confine-history:"+st.Op.Kind, desc)
+				return
+			}
+			o.CountEval(fmt.Sprintf("hist|%v|%s|%d|%s|%s|%s", ks, tag, i, st.Op.Kind, st.Op.P, st.Op.Q), out.Kind != "err" && !(out.Kind == "bool" && !out.B))
+		}
+	}
+	// disk: child view of a disk filespace; the host directory above the filespace root holds a canary
+	// and a look-alike sibling of the root. Writes: the host outside the view root is unchanged. Reads:
+	// the same operation on a twin host tree (same at and below the view root, other names and other
+	// contents elsewhere) gives the same answer. A view handed out by Filespace(p) is used.
 	nDisk := 150
 	if tier == "thorough" {
 		nDisk = 3000
@@ -415,91 +517,180 @@ func runC03(o *Out, rng *RNG, tier string, replay string) {
 	must(err)
 	defer os.RemoveAll(tmp)
 	caseNo := 0
+	diskView := func(dir string, depth int) (view filesystem.Filespace, vroot []string, why string) {
+		droot, err := diskfs.NewFilespace(dir + "/root")
+		must(err)
+		view, vroot = droot, []string{}
+		for _, n := range []string{"a", "b"}[:depth] {
+			child, err := view.Filespace(n)
+			if err != nil || child == nil {
+				return nil, vroot, fmt.Sprintf("Filespace(%q) of an existing directory failed: %v", n, err)
+			}
+			view, vroot = child, append(vroot, n)
+		}
+		return view, vroot, ""
+	}
+	// host trees that a run left byte-identical serve the next run
+	hostDir, hostWalk := "", []WalkEnt(nil)
+	twinDirs := map[int]string{}
 	runDisk := func(depth int, op FsOp) {
 		caseNo++
-		base := fmt.Sprintf("%s/case%d", tmp, caseNo)
-		must(os.MkdirAll(base+"/root/a/b", 0o755))
-		must(os.WriteFile(base+"/canary", []byte("host canary"), 0o644))
-		must(os.WriteFile(base+"/root/secret", []byte("TOP"), 0o644))
-		must(os.WriteFile(base+"/root/a/f", []byte("fa"), 0o644))
-		must(os.WriteFile(base+"/root/a/b/g", []byte("deep"), 0o644))
-		droot, err := diskfs.NewFilespace(base + "/root")
-		must(err)
-		var view filesystem.Filespace = droot
-		vroot := []string{}
-		if depth >= 1 {
-			view, err = droot.Filespace("a")
-			must(err)
-			vroot = []string{"a"}
+		base, hostBefore := hostDir, hostWalk
+		hostDir, hostWalk = "", nil
+		if base == "" {
+			base = fmt.Sprintf("%s/case%d", tmp, caseNo)
+			writeHost(base, diskEnts)
+			hostBefore, _, _ = walkFs(mustDisk(base))
 		}
-		if depth >= 2 {
-			view, err = view.Filespace("b")
-			must(err)
-			vroot = []string{"a", "b"}
+		keep := false
+		defer func() {
+			if !keep {
+				os.RemoveAll(base)
+			}
+		}()
+		desc := map[string]interface{}{"backend": "disk", "view_root": []string{"a", "b"}[:depth], "op": op}
+		view, vroot, bad := diskView(base, depth)
+		if bad != "" {
+			o.Fail("setup", "disk: "+bad, "setup", desc)
+			return
 		}
-		hostBefore, _, _ := walkFs(mustDisk(base))
+		hroot := append([]string{"root"}, vroot...)
+		if len(hostBefore) < len(diskEnts) {
+			o.Fail("setup", fmt.Sprintf("disk: the host tree has %d of at least %d nodes", len(hostBefore), len(diskEnts)), "setup", desc)
+		}
 		out := withTimeout(20*1e9, func() FsOut { return execOn(view, op) })
 		hostAfter, wok, why := walkFs(mustDisk(base))
-		desc := map[string]interface{}{"backend": "disk", "view_root": vroot, "op": op, "out": out.Kind}
+		desc["out"] = out.Kind
 		o.Stat("disk_op_" + op.Kind)
 		if out.Kind == "panic" || out.Kind == "hang" {
 			o.Fail("no_panic", "disk operation "+out.Kind+": "+out.Msg, "panic", desc)
 		}
 		if !wok {
 			o.Fail("walk", "host walk failed: "+why, "walk", desc)
-		} else if msg := outsideUnchanged(hostBefore, hostAfter, append([]string{"root"}, vroot...), true); msg != "" {
+		} else if msg := outsideUnchanged(hostBefore, hostAfter, hroot, true); msg != "" {
 			o.Fail("confined_writes", "disk: "+msg, "confine-disk:"+op.Kind, desc)
 		}
+		probed := false
+		defer func() {
+			if wok && !probed && out.Kind != "panic" && out.Kind != "hang" {
+				if same, _ := walkEqual(hostBefore, hostAfter); same && len(hostBefore) == len(hostAfter) {
+					keep, hostDir, hostWalk = true, base, hostAfter
+				}
+			}
+		}()
+		// twin host (one per view depth; used again only after operations that change nothing)
+		twin := twinDirs[depth]
+		if twin == "" {
+			twin = fmt.Sprintf("%s/twin%d", tmp, caseNo)
+			writeHost(twin, twinEnts(diskEnts, hroot, true))
+		}
+		if isMutating(op.Kind) || op.Kind == "Filespace" {
+			delete(twinDirs, depth)
+			defer os.RemoveAll(twin)
+		} else {
+			twinDirs[depth] = twin
+		}
+		view2, _, bad2 := diskView(twin, depth)
+		if bad2 != "" {
+			o.Fail("setup", "disk twin: "+bad2, "setup", desc)
+			return
+		}
+		out2 := withTimeout(20*1e9, func() FsOut { return execOn(view2, op) })
+		if outSig(out) != outSig(out2) {
+			o.Fail("confined_reads", fmt.Sprintf("disk: answer depends on what lies outside the view root %q: %s vs %s", vroot, outSig(out), outSig(out2)), "noninterf-disk:"+op.Kind, desc)
+		}
+		o.Stat("disk_noninterference_checked")
+		if wok && op.Kind == "Filespace" && out.Kind == "unit" {
+			if child := getChild(view, op.P); child != nil {
+				probed = true
+				o.Stat("disk_child_view_probed")
+				if child2 := getChild(view2, op.P); child2 != nil {
+					if s1, s2 := childReadSig(child), childReadSig(child2); s1 != s2 {
+						o.Fail("confined_reads", fmt.Sprintf("disk: the view returned by Filespace(%q) shows what lies outside the root %q of the view it came from: %s vs %s", op.P, vroot, s1, s2), "child-reads-disk", desc)
+					}
+				}
+				if w := childWrites(child); w.Kind != "unit" {
+					o.Fail("no_panic", "disk: use of the view returned by Filespace: "+w.Kind+": "+w.Msg, "panic", desc)
+				}
+				hostAfter2, wok2, why2 := walkFs(mustDisk(base))
+				if !wok2 {
+					o.Fail("walk", "host walk failed after the use of the view returned by Filespace: "+why2, "walk", desc)
+				} else if msg := outsideUnchanged(hostAfter, hostAfter2, hroot, true); msg != "" {
+					o.Fail("confined_writes", fmt.Sprintf("disk: through the view returned by Filespace(%q): %s", op.P, msg), "confine-disk:child", desc)
+				}
+			}
+		}
 		o.CountEval(fmt.Sprintf("disk|%v|%s|%s|%s", vroot, op.Kind, op.P, op.Q), out.Kind != "err")
-		os.RemoveAll(base)
 	}
-	if replay != "" { // re-run the one (stack, operation) pair of a replay file
+	if replay != "" { // re-run the one (stack, operation) pair / history of a replay file
 		b, err := os.ReadFile(replay)
 		must(err)
 		var rp struct {
 			Case struct {
-				Stack    []Ctor   `json:"stack"`
-				Op       FsOp     `json:"op"`
-				Backend  string   `json:"backend"`
-				ViewRoot []string `json:"view_root"`
+				Stack    []Ctor     `json:"stack"`
+				Op       FsOp       `json:"op"`
+				Backend  string     `json:"backend"`
+				ViewRoot []string   `json:"view_root"`
+				Look     bool       `json:"look"`
+				History  []histStep `json:"history"`
 			} `json:"case"`
 		}
 		must(json.Unmarshal(b, &rp))
-		op := rp.Case.Op
-		op.Data = make([]byte, len(op.DataI))
-		for i, v := range op.DataI {
-			op.Data[i] = byte(v)
-		}
-		for _, c := range op.ChunkI {
-			ch := make([]byte, len(c))
-			for i, v := range c {
-				ch[i] = byte(v)
+		thaw := func(op FsOp) FsOp {
+			op.Data = make([]byte, len(op.DataI))
+			for i, v := range op.DataI {
+				op.Data[i] = byte(v)
 			}
-			op.Chunks = append(op.Chunks, ch)
+			for _, c := range op.ChunkI {
+				ch := make([]byte, len(c))
+				for i, v := range c {
+					ch[i] = byte(v)
+				}
+				op.Chunks = append(op.Chunks, ch)
+			}
+			return op
 		}
-		if rp.Case.Backend == "disk" {
+		op := thaw(rp.Case.Op)
+		if len(rp.Case.History) > 0 {
+			for i := range rp.Case.History {
+				rp.Case.History[i].Op = thaw(rp.Case.History[i].Op)
+			}
+			runHistory(rp.Case.Stack, rp.Case.History, "replay")
+		} else if rp.Case.Backend == "disk" {
 			runDisk(len(rp.Case.ViewRoot), op)
 		} else {
-			runOne(rp.Case.Stack, op, true)
+			runOne(rp.Case.Stack, op, true, rp.Case.Look)
 		}
 		return
 	}
 	climbers := []string{"..", "../a", "a/../..", "a/../../b", "/..", "/../a", "../..", "./..", "a/./../..", "../a/b/g",
 		"b/../../secret", "../secret", "/../secret", "../../secret", "a/b/../../../secret", ".", "", "/", "a/..", "b/..", "../a/f", "e/../../f",
 		"g", "./g", "b/g", "f", "b/../f", "e", "b/e", "x/../g", "/g", "g/", "b/e/../g", "new", "new/sub", "b/new"}
-	runAll := func(ks []Ctor, p string, kind string) {
-		if kind == "Copy" || kind == "CopyDir" || kind == "CopyFile" {
-			runOne(ks, mkOp(kind, p, "g"), true)
-			runOne(ks, mkOp(kind, "g", p), true)
-		} else {
-			runOne(ks, mkOp(kind, p, ""), true)
+	// the OTHER argument of a copy is a file / a directory that exists in the view, so that the copy
+	// gets past the test of its source (a directory copy needs a directory)
+	runAll := func(ks []Ctor, p string, kind string, look bool) {
+		vroot, hasRoot := viewRoot(ks)
+		file, dir := existingIn(c03SeedEnts(look), vroot, hasRoot)
+		switch kind {
+		case "Copy":
+			runOne(ks, mkOp(kind, p, file), true, look)
+			runOne(ks, mkOp(kind, file, p), true, look)
+			runOne(ks, mkOp(kind, dir, p), true, look)
+		case "CopyDir":
+			runOne(ks, mkOp(kind, p, dir), true, look)
+			runOne(ks, mkOp(kind, dir, p), true, look)
+		case "CopyFile":
+			runOne(ks, mkOp(kind, p, file), true, look)
+			runOne(ks, mkOp(kind, file, p), true, look)
+		default:
+			runOne(ks, mkOp(kind, p, ""), true, look)
 		}
 	}
 	for si, ks := range stacks {
 		// every operation on every climbing-prone path
 		for _, p := range climbers {
 			for _, kind := range kinds {
-				runAll(ks, p, kind)
+				runAll(ks, p, kind, false)
 			}
 		}
 		// every segment path (exhaustive up to maxSeg) with one operation in rotation
@@ -507,19 +698,75 @@ func runC03(o *Out, rng *RNG, tier string, replay string) {
 			if tier == "thorough" {
 				for ki, kind := range kinds {
 					if (pi+ki+si)%3 == 0 {
-						runAll(ks, p, kind)
+						runAll(ks, p, kind, false)
 					}
 				}
 			} else if (pi+si)%2 == 0 {
-				runAll(ks, p, kinds[(pi/2+si)%len(kinds)])
+				runAll(ks, p, kinds[(pi/2+si)%len(kinds)], false)
 			}
 		}
 	}
 	o.Extra["exhaustive_runs"] = total
+	// look-alike sweep: the backend holds siblings of the view roots whose names extend the root's name
+	// (a / ab, a/b / a/b2, a/bb); every operation with the climbing arguments that name them, through
+	// every stack and through stacks whose last Filespace(..) argument is such a path; one long
+	// argument (265 segments, net climb of one)
+	long := strings.Repeat("e/", 130) + strings.Repeat("../", 131) + "b2/t"
+	lookPaths := []string{"../ab", "../ab/s", "../ab/new", "../b2/t", "../b2/new/x", "../bb", "../../ab/s", "x/../../b2/t", long}
+	var lookStacks [][]Ctor
+	for _, ks := range stacks { // the stacks whose root is "a" or below
+		if vroot, hasRoot := viewRoot(ks); hasRoot && len(vroot) > 0 && vroot[0] == "a" {
+			lookStacks = append(lookStacks, ks)
+		}
+	}
+	for _, pre := range [][]Ctor{{{"child", "a"}}, {{"newsub", "a"}}, {{"cache", ""}, {"child", "a"}}, {{"ro", ""}, {"child", "a"}}, {{"enc", ""}, {"child", "a"}}, {{"child", "a"}, {"cache", ""}, {"child", "b"}}} {
+		for _, arg := range []string{"../ab", "../b2", "b/../../ab"} {
+			lookStacks = append(lookStacks, append(append([]Ctor{}, pre...), Ctor{"child", arg}))
+		}
+	}
+	t0 := total
+	for _, ks := range lookStacks {
+		for _, p := range lookPaths {
+			for _, kind := range kinds {
+				runAll(ks, p, kind, true)
+			}
+		}
+		for _, p := range []string{"", "s", "t", "../s"} {
+			for _, kind := range kinds {
+				if len(ks) > 0 && strings.Contains(ks[len(ks)-1].Arg, "..") {
+					runAll(ks, p, kind, true)
+				}
+			}
+		}
+	}
+	o.Extra["lookalike_runs"] = total - t0
+	// histories: crossing copies / root removal for every stack with a root below the backend root,
+	// then random ones
+	t0 = total
+	var rooted [][]Ctor
+	for _, ks := range stacks {
+		if vroot, hasRoot := viewRoot(ks); hasRoot && len(vroot) > 0 && vroot[0] == "a" {
+			rooted = append(rooted, ks)
+			for hi, h := range crossingHistories(c03SeedEnts(true), vroot, mkOp) {
+				runHistory(ks, h, fmt.Sprintf("crossing%d", hi))
+			}
+		}
+	}
+	nHist := 250
+	if tier == "thorough" {
+		nHist = 5000
+	}
+	for i := 0; i < nHist; i++ {
+		r := rng.Fork()
+		ks := rooted[r.Intn(len(rooted))]
+		vroot, _ := viewRoot(ks)
+		runHistory(ks, randomHistory(r, vroot, kinds, mkOp), "random")
+	}
+	o.Extra["history_runs"] = total - t0
 	// random: random stacks (depth 1-3), random longer paths
 	ctorPool := []string{"child", "child", "newsub", "newsub", "ro", "enc", "cache"}
-	argPool := []string{"a", "b", "a/b", "./a", "a/", "/a", "a/../a", "..", "../a", "a/../..", "", ".", "/", "nope", "a/b/e", "a/f", "/../a", "a//b"}
-	segs := []string{"a", "b", "e", "g", ".", "..", "", "f"}
+	argPool := []string{"a", "b", "a/b", "./a", "a/", "/a", "a/../a", "..", "../a", "a/../..", "", ".", "/", "nope", "a/b/e", "a/f", "/../a", "a//b", "../ab", "ab", "a/b2"}
+	segs := []string{"a", "b", "e", "g", ".", "..", "", "f", "ab", "b2", "...", "..a"}
 	for i := 0; i < nRandom; i++ {
 		r := rng.Fork()
 		d := 1 + r.Intn(3)
@@ -550,17 +797,19 @@ func runC03(o *Out, rng *RNG, tier string, replay string) {
 			return s
 		}
 		kind := kinds[r.Intn(len(kinds))]
-		runOne(ks, mkOp(kind, mk(), mk()), true)
+		runOne(ks, mkOp(kind, mk(), mk()), true, i%3 == 2)
 	}
 	// every operation on every climbing-prone path, at view depth 0, 1 and 2; the other argument of a
-	// copy names an existing file of that view (a copy that checks its source first gets that far)
+	// copy names an existing file of that view (a copy that checks its source first gets that far);
+	// per depth the climbing arguments that name the look-alike sibling of that view's root
 	existing := []string{"secret", "f", "g"}
 	diskClimbers := climbers
 	if tier != "thorough" {
 		diskClimbers = climbers[:24]
 	}
+	diskLook := [][]string{{"../root2", "../root2/r", "../root2/new/x", "a/../../root2/r"}, {"../ab", "../ab/s", "../ab/new/x", "b/../../ab/s"}, {"../b2", "../b2/t", "../b2/new/x", "e/../../b2/t"}}
 	for depth := 0; depth <= 2; depth++ {
-		for _, p := range append(append([]string{}, diskClimbers...), "../x/y", "../../x/y", "a/../../x/y", "/../x/y/z") {
+		for _, p := range append(append(append([]string{}, diskClimbers...), "../x/y", "../../x/y", "a/../../x/y", "/../x/y/z"), diskLook[depth]...) {
 			for _, kind := range kinds {
 				if kind == "Copy" || kind == "CopyDir" || kind == "CopyFile" {
 					runDisk(depth, mkOp(kind, p, existing[depth]))
@@ -575,7 +824,7 @@ func runC03(o *Out, rng *RNG, tier string, replay string) {
 		}
 	}
 	o.Extra["disk_exhaustive_runs"] = caseNo
-	dsegs := []string{"a", "b", ".", "..", "", "f", "g", "x", "secret"}
+	dsegs := []string{"a", "b", ".", "..", "", "f", "g", "x", "secret", "ab", "b2", "root2"}
 	for i := 0; i < nDisk; i++ {
 		r := rng.Fork()
 		depth := 0
